@@ -1,0 +1,34 @@
+//go:build verif
+
+// Package verifhook re-exports, for the external verification harness only, identifiers that
+// live under internal/ and therefore cannot be imported from another module.
+// It is compiled only with the build tag "verif" and adds no behaviour.
+package verifhook
+
+import (
+	"github.com/taurusgroup/multi-party-sig/internal/round"
+	"github.com/taurusgroup/multi-party-sig/internal/types"
+)
+
+type (
+	RID              = types.RID
+	ThresholdWrapper = types.ThresholdWrapper
+	SigningMessage   = types.SigningMessage
+
+	RoundNumber      = round.Number
+	RoundInfo        = round.Info
+	RoundHelper      = round.Helper
+	RoundSession     = round.Session
+	RoundMessage     = round.Message
+	RoundContent     = round.Content
+	RoundAbort       = round.Abort
+	RoundOutput      = round.Output
+	BroadcastRound   = round.BroadcastRound
+	BroadcastContent = round.BroadcastContent
+)
+
+var (
+	NewSession = round.NewSession
+	NewRID     = types.NewRID
+	EmptyRID   = types.EmptyRID
+)
